@@ -134,17 +134,26 @@ func joinValues(values []any, sep string) string {
 }
 
 // populateDefaultQueryParameters populates default values inside query parameters, while ensuring types are respected
-func populateDefaultQueryParameters(q url.Values, parameterName string, value any, explode bool) {
+func populateDefaultQueryParameters(q url.Values, parameterName string, value any, explode bool, delim string) {
 	switch t := value.(type) {
 	case []any:
 		if explode {
 			appendToQueryValues(q, parameterName, t)
 		} else {
-			q.Add(parameterName, joinValues(t, ","))
+			q.Add(parameterName, joinValues(t, delim))
 		}
 	default:
 		q.Add(parameterName, defaultValueToString(value))
 	}
+}
+
+// defaultListToString writes an array default of a header or cookie parameter the way it is read back
+// (comma-separated); other values as defaultValueToString does
+func defaultListToString(value any) string {
+	if t, ok := value.([]any); ok {
+		return joinValues(t, ",")
+	}
+	return defaultValueToString(value)
 }
 
 // ValidateParameter validates a parameter's value by JSON schema.
@@ -200,15 +209,25 @@ func ValidateParameter(ctx context.Context, input *RequestValidationInput, param
 				// Next check `parameter.Required && !found` will catch this.
 			case openapi3.ParameterInQuery:
 				q := req.URL.Query()
-				explode := parameter.Explode != nil && *parameter.Explode
-				populateDefaultQueryParameters(q, parameter.Name, value, explode)
+				// the default is written the way the parameter's serialization method reads it back
+				explode, delim := true, ","
+				if sm, err := parameter.SerializationMethod(); err == nil {
+					explode = sm.Explode
+					switch sm.Style {
+					case openapi3.SerializationSpaceDelimited:
+						delim = " "
+					case openapi3.SerializationPipeDelimited:
+						delim = "|"
+					}
+				}
+				populateDefaultQueryParameters(q, parameter.Name, value, explode, delim)
 				req.URL.RawQuery = q.Encode()
 			case openapi3.ParameterInHeader:
-				req.Header.Add(parameter.Name, defaultValueToString(value))
+				req.Header.Add(parameter.Name, defaultListToString(value))
 			case openapi3.ParameterInCookie:
 				req.AddCookie(&http.Cookie{
 					Name:  parameter.Name,
-					Value: defaultValueToString(value),
+					Value: defaultListToString(value),
 				})
 			}
 		}
